@@ -15,6 +15,9 @@ import graphgen as gg
 RULE_PRUNE = ("random Plans of 0-14 nodes (API-built and spec-built), random required subsets (0-3 nodes) and output (None / call / "
               "literal), plus a malformed stream (required node from another plan); distinct by (nodes, kinds, edges, required, "
               "output); non-trivial = something is pruned and something survives")
+TRUSTED_BASE_PRUNE = ["networkx.MultiDiGraph modelled as node list + set of (src, dst, key) triples; remove_node drops incident edges; "
+                      "add_edge of an existing triple is a no-op (tested by the full edge-set comparison)",
+                      "Node objects are always truthy and compare by identity (`if output_node:`, `u != output_node`)"]
 HEADER = ("From Coq Require Import List Arith Bool.\nImport ListNotations.\n"
           "From UJ Require Import Run.Exec_Prune.\n")
 
